@@ -154,6 +154,7 @@ def vseg? (sg : String) : Option VOp :=
   | ["naxpy", a, k, b] => do pure (.naxpy (← a? a) (← int? k) (← a? b))
   | ["nadd", a, b] => do pure (.nadd (← a? a) (← a? b))
   | ["nnew", a, b, k] => do pure (.nnew (← a? a) (← a? b) (← int? k))
+  | ["nint", a, k] => do pure (.nint (← a? a) (← int? k))
   | ["nrun", a] => do pure (.nrun (← a? a))
   | _ => none
 
